@@ -262,7 +262,7 @@ Lemma tx_is_coinbase_iff t :
 Proof.
   unfold tx_is_coinbase, is_coinbase_outpoint. split.
   - destruct (inputs t) as [|i [|j l]]; try discriminate. intros E. apply andb_true_iff in E. destruct E as [E1 E2].
-    apply bytes_eqb_eq in E1. exists i. repeat split; [exact E1 | lia].
+    apply bytes_eqb_eq in E1. exists i. split; [reflexivity|]. split; [exact E1 | lia].
   - intros (i & -> & E1 & E2). rewrite E1, E2. unfold zeros32. rewrite bytes_eqb_refl. reflexivity.
 Qed.
 
@@ -577,12 +577,12 @@ Proof.
   destruct (is_coinbase_outpoint (rev idle) vo) eqn:Ecb.
   - cbn [bind]. intros H; inversion H; subst. unfold in_ok, in_range, in_fields_of. cbn [f_prev f_vout f_script f_seq prev_tx_id vout unlocking sequence].
     rewrite rev_length. cbn [to_bytes bit_bytes]. rewrite app_nil_r.
-    split; [repeat split; [exact L32 | exact Hvo | exact Hsq | exact Hslen]|].
+    split; [split; [exact L32 | split; [exact Hvo | split; [exact Hsq | exact Hslen]]]|].
     rewrite null_outpoint_model. cbn [f_prev f_vout]. rewrite Ecb. discriminate.
   - destruct (from_bytes sb) as [scr| |] eqn:Es; cbn [bind]; try discriminate.
     intros H; inversion H; subst. unfold in_ok, in_range, in_fields_of. cbn [f_prev f_vout f_script f_seq prev_tx_id vout unlocking sequence].
     rewrite rev_length. destruct (reparse_script _ _ Es) as [Hok Hl].
-    split; [repeat split; [exact L32 | exact Hvo | exact Hsq | unfold u64 in *; lia]|]. intros _. exact Hok.
+    split; [split; [exact L32 | split; [exact Hvo | split; [exact Hsq | unfold u64 in *; lia]]]|]. intros _. exact Hok.
 Qed.
 
 Lemma txout_read_ok bs o r : txout_read bs = Ok (o, r) -> out_ok (out_fields_of o).
@@ -630,7 +630,8 @@ Proof.
   apply (read_many_inv txin_read (fun i => in_ok (in_fields_of i)) txin_read_ok) in E2. destruct E2 as [Fi Li].
   apply (read_many_inv txout_read (fun o => out_ok (out_fields_of o)) txout_read_ok) in E4. destruct E4 as [Fo Lo].
   unfold fields_ok, fields_of. cbn [f_version f_ins f_outs f_locktime version inputs outputs locktime].
-  rewrite !map_length, Li, Lo. repeat split; try assumption; apply Forall_map; assumption.
+  rewrite !map_length, Li, Lo.
+  split; [exact Hver|]. split; [exact Hlt|]. split; [exact Hnin|]. split; [exact Hnout|]. split; apply Forall_map; assumption.
 Qed.
 
 (* Whatever byte string the parser accepts (non-minimal compact sizes, trailing bytes, a script from C02's class
@@ -749,7 +750,7 @@ Proof.
   apply take_len_inv in E3. destruct E3 as [-> Ls].
   apply take_int_inv in E4. destruct E4 as (a4 & -> & La4 & -> & Hsq). rewrite pow256_4 in Hsq.
   unfold in_range, encode_in. cbn [f_prev f_vout f_script f_seq]. rewrite rev_length, rev_involutive.
-  split; [repeat split; [exact L0 | exact Hvo | exact Hsq | rewrite Ls; exact Hlen]|].
+  split; [split; [exact L0 | split; [exact Hvo | split; [exact Hsq | rewrite Ls; exact Hlen]]]|].
   assert (B1 : le_bytes 4 (le_val a1) = a1) by (rewrite <- La1; apply le_bytes_le_val).
   assert (B4 : le_bytes 4 (le_val a4) = a4) by (rewrite <- La4; apply le_bytes_le_val).
   intros ->. rewrite (Hm eq_refl). rewrite Ls, B1, B4, <- !app_assoc. reflexivity.
@@ -834,7 +835,7 @@ Proof.
   apply (decode_list_inv decode_out encode_out out_range decode_out_inv) in E4. destruct E4 as (Fo & Lo & Mo).
   apply take_int_inv in E5. destruct E5 as (a5 & -> & La5 & -> & Hlt). rewrite pow256_4 in Hlt.
   unfold fields_range, encode_tx_spec. cbn [f_version f_ins f_outs f_locktime].
-  split; [rewrite Li, Lo; repeat split; assumption|].
+  split; [rewrite Li, Lo; split; [exact Hver|]; split; [exact Hlt|]; split; [exact Hnin|]; split; [exact Hnout|]; split; assumption|].
   intros Hm. apply andb_true_iff in Hm. destruct Hm as [Hm ->]. apply andb_true_iff in Hm. destruct Hm as [Hm ->].
   apply andb_true_iff in Hm. destruct Hm as [-> ->].
   assert (B0 : le_bytes 4 (le_val a0) = a0) by (rewrite <- La0; apply le_bytes_le_val).
@@ -856,7 +857,8 @@ Qed.
 
 Lemma fields_ok_range f : fields_ok f -> fields_range f.
 Proof.
-  intros (Hver & Hlt & Hnin & Hnout & Hins & Houts). unfold fields_range. repeat split; try assumption.
+  intros (Hver & Hlt & Hnin & Hnout & Hins & Houts). unfold fields_range.
+  split; [exact Hver|]. split; [exact Hlt|]. split; [exact Hnin|]. split; [exact Hnout|]. split.
   - eapply Forall_impl; [|exact Hins]. intros i [Hr _]. exact Hr.
   - eapply Forall_impl; [|exact Houts]. intros o [Hr _]. exact Hr.
 Qed.
@@ -870,7 +872,8 @@ Definition scripts_ok (f : tx_fields) : Prop :=
 
 Lemma fields_ok_of f : fields_range f -> scripts_ok f -> fields_ok f.
 Proof.
-  intros (Hver & Hlt & Hnin & Hnout & Hins & Houts) [Si So]. unfold fields_ok. repeat split; try assumption.
+  intros (Hver & Hlt & Hnin & Hnout & Hins & Houts) [Si So]. unfold fields_ok.
+  split; [exact Hver|]. split; [exact Hlt|]. split; [exact Hnin|]. split; [exact Hnout|]. split.
   - rewrite Forall_forall in *. intros i Hi. split; auto.
   - rewrite Forall_forall in *. intros o Ho. split; auto.
 Qed.
@@ -884,7 +887,7 @@ Proof.
   apply decode_inv in E. destruct E as [Hrange Henc]. destruct (d_rest d); [|discriminate].
   specialize (Henc Hm). rewrite app_nil_r in Henc.
   destruct (parse_encode (d_fields d) [] (fields_ok_of _ Hrange Hs)) as (t & Et & Bt & Ft).
-  rewrite app_nil_r, <- Henc in Et. exists t. rewrite Henc. auto.
+  rewrite app_nil_r in Et. exists t. rewrite Henc. split; [exact Et|]. split; [exact Bt | exact Ft].
 Qed.
 
 Section AccessorsOnBytes.
@@ -907,6 +910,6 @@ Section AccessorsOnBytes.
     split; [unfold tx_size; rewrite Bt; reflexivity|]. split; [unfold tx_id; rewrite Bt; reflexivity|].
     rewrite tx_outpoints_spec, tx_is_coinbase_spec. rewrite <- Ft.
     unfold fields_of. cbn [f_version f_ins f_outs f_locktime]. rewrite !map_map. cbn [in_fields_of out_fields_of f_prev f_vout f_seq f_script f_value f_pk].
-    repeat split; try reflexivity. apply satoshis_out_spec.
+    do 10 (split; [reflexivity|]). apply satoshis_out_spec.
   Qed.
 End AccessorsOnBytes.
